@@ -132,6 +132,11 @@ def main():
                 if not tok.startswith("/") and tok not in (".", "..") and "/" not in tok.strip("/") + "x" and os.path.isdir(os.path.join(wt, tok)) and os.path.exists(os.path.join(wt, tok, "go.mod")):
                     pkgdir = tok
                     break
+        if pkgdir == ".":
+            # the package argument of the go test command given in the header (e.g. "./rueidislock/")
+            marg = re.search(r"go test[^\n]*?\s(\./[\w./-]+)", first)
+            if marg and os.path.isdir(os.path.join(wt, marg.group(1))):
+                pkgdir = marg.group(1).strip("./") or "."
         res["demo_pkg"] = pkgdir
         dst = os.path.join(wt, pkgdir, "zz_seed_demo%s_test.go" % n)
         shutil.copy(demo, dst)
